@@ -66,10 +66,20 @@ class Ctx:
         if race:
             env["CGO_ENABLED"] = "1"
         # the harness module pins /repo through a replace directive; go.sum is copied
-        # from the repository so that no network access is attempted
-        shutil.copy(os.path.join(REPO, "go.sum"), os.path.join(HARNESS, "go.sum"))
+        # from the repository so that no network access is attempted.  With VERIF_REPO set
+        # (a scratch worktree of the repository) a private copy of the harness is built
+        # against that tree instead.
+        hdir = HARNESS
+        if os.path.realpath(REPO) != "/repo":
+            hdir = os.path.join(self.scratch, "harness-src")
+            if not os.path.exists(hdir):
+                shutil.copytree(HARNESS, hdir)
+                gm = os.path.join(hdir, "go.mod")
+                txt = open(gm).read().replace("=> /repo", "=> " + os.path.realpath(REPO))
+                open(gm, "w").write(txt)
+        shutil.copy(os.path.join(REPO, "go.sum"), os.path.join(hdir, "go.sum"))
         cmd = ["go", "build", "-tags", "verif"] + (["-race"] if race else []) + ["-o", out, "./cmd/vdrive"]
-        p = subprocess.run(cmd, cwd=HARNESS, env=env, capture_output=True, text=True)
+        p = subprocess.run(cmd, cwd=hdir, env=env, capture_output=True, text=True)
         if p.returncode != 0:
             raise Infra("harness build failed (the repository does not compile with -tags verif?):\n" + p.stdout + p.stderr)
         if race:
